@@ -11,12 +11,10 @@ def run(tier):
     exe, qs, ks = B.build()
     wd = C.work_dir('c14')
     evs = B.run_modes(exe, ks, ['compare'], n=4000 if tier == 'quick' else 200000)
-    extra = []
-    try:
-        from .. import models as M
-        extra = M.compare_events(tier)
-    except ImportError:
-        chk.note_inconclusive('constitutive-model comparison events not built yet')
+    from .. import models as M
+    mout = M.compare_events(tier)
+    M.report(chk, 'Trace_Models(comparison and hash of the three model classes)', mout, {'model_order'})
+    chk.layer('A.models', events=len(mout['events']), note='pairs of models whose two stored values tie in the first (also via -0/+0)')
     res, result = B.validate(evs, qs, wd, 'c14')
     B.report(chk, 'Trace_Battery(comparison and hash events)', evs, res, result, {'order', 'order_summary'})
     sm = [e for e in evs if e['e'] == 'CmpSummary']
